@@ -1163,7 +1163,7 @@ def finding_matches(entry, job, failure):
 
 # ====================================================================== driver
 
-def check_property(pid, tier, seed, do_lean=True):
+def check_property(pid, tier, seed, do_lean=True, write_evidence=True):
     t0 = time.time()
     if pid not in GENERATORS:
         print("unknown property", pid)
@@ -1299,9 +1299,10 @@ def check_property(pid, tier, seed, do_lean=True):
         known_findings_replayed=len(known_lines), failures_matching_known_findings=len(known_hits),
         explanation="proof obligations: theorems of SF/Props/%s.lean audited with #print axioms; tie: Rust harness on /repo's working tree vs Lean model (f64 and exact Q) and vs batch specs; relations evaluated on the implementation in exact arithmetic" % pid,
     )
-    core.write_evidence(pid, tier, seed, LEVEL[pid], cov,
-                        ["model/implementation tie is differential (sampled); IEEE rounding and the allocator are outside the theorems"],
-                        wall, 1 if violation else 0)
+    if write_evidence:
+        core.write_evidence(pid, tier, seed, LEVEL[pid], cov,
+                            ["model/implementation tie is differential (sampled); IEEE rounding and the allocator are outside the theorems"],
+                            wall, 1 if violation else 0)
     log("%s: %d jobs, %d non-trivial, %d/%d obligations, %d oracle failures, %d corr failures, %d known-matching, %.1fs"
         % (pid, len(results), len(nontrivial), lean["discharged"], lean["obligations"], len(oracle_failures), len(corr_failures), len(known_hits), wall))
     if violation:
